@@ -219,7 +219,7 @@ ALL_KINDS = KNOWN_KINDS + ["iter", "iterref"]
 
 
 def make_source(rng, cid, kind, n, adapt="none", hint=None, tail=None):
-    if kind in ("array", "arrref"):
+    if kind in ("array", "arrref") and not (kind == "array" and n == 288):
         n = min(n, 8)
     if kind == "range":
         start = rng.choice([0, 1, 5, 1000, 1 << 63, MAXW - n, MAXW - n - 1, MAXW - n - rng.randint(0, 40)])
